@@ -261,7 +261,7 @@ def c10(ctx):
     ctx.validate_trace("trace")
     sessions(ctx)
     large_inputs(ctx)
-    return finish(ctx, relevant={"verdict", "extract-invented", "extract-missing", "extract-duplicate", "extract-error", "non-monotone"},
+    return finish(ctx, relevant={"verdict", "extract", "extract-invented", "extract-missing", "extract-duplicate", "extract-error", "non-monotone"},
                   rule="every tree up to 3 leaves x every chain of rewrites (commute, re-associate, idempotence, absorption, distribution both "
                        "ways) applied at any node x 3 renderings (minimal/full parentheses, widened blanks) x all allowed subsets: the real "
                        "verdicts must equal the ORIGINAL's; term-preserving chains keep the ExtractLicenses set; '(E) AND (F)' / '(E) OR (F)' "
